@@ -165,6 +165,28 @@ theorem double_arm_drops_first_counterexample :
       ∧ s.lost.map (·.id) = [0] ∧ s.stop = false ∧ s.phase = .polling := by
   decide +kernel
 
+/-- history of the second witness: run() parks in poll; another thread posts handler 0 and arms handler 1 on
+descriptor 0 (queued functor, the loop is polling); the loop wakes, pops handler 0, which — running on the loop
+thread, `polling_ = false` — calls `cancel_io_events(0)` (and then closes the descriptor) -/
+def overtakeWitness : List Act :=
+  let l : Act := .loop {}
+  [l, l,
+   .op .post,                                -- handler 0
+   .op (.setIo (some 0) .rd true .sysErr),   -- handler 1: queued `io_event_setter`
+   l, l, l,                                  -- poll returns, next run_one, handler 0 popped
+   .op (.cancelIo (some 0)),                 -- issued by handler 0: the canceler body runs directly
+   l, l, l, l]                               -- handler 0 logged; setter popped and run; parked again
+
+/-- **Counter-example to "cancelled or closed first ⇒ completed with the cancel code"** for an arm that is
+still a queued functor (known finding `aio-queued-arm-overtaken-by-cancel-close`): the cancel issued *after*
+the arm is executed *before* it, finds nothing, and handler 1 ends up armed, never queued, never invoked.
+If the descriptor is then closed no event will ever complete it.  Replayed on the real loop on every run. -/
+theorem cancel_overtakes_queued_arm_counterexample :
+    let s := run init overtakeWitness
+    (ioGet s.map 0).rd = some ⟨1, .io⟩ ∧ calls 1 s = 0 ∧ calls 0 s = 1 ∧ s.queue = [] ∧ s.running = none
+      ∧ s.lost = [] ∧ s.phase = .polling := by
+  decide +kernel
+
 /-- a step arms a slot that already holds a handler -/
 def DoubleArmAt (s : St) (a : Act) : Prop :=
   (∃ fd e ok er, a = .op (.setIo (some fd) e ok er) ∧ ¬ (s.polling || !s.reactorUp) = true ∧ ok = true ∧
